@@ -375,6 +375,50 @@ RAW = {
     'discover_versions_list': lambda: kdrv.discover_versions([(1, 2), (9, 9)]),
     'query_all': lambda: kdrv.query(list(E.QueryFunction)[:6]),
 }
+# ---- every optional request field of the state-changing operations at extreme values (dates, indices, texts, identifiers)
+EXTREME_DATES = [0, 1, -1, 2 ** 31 - 1, 2 ** 31, 2 ** 32, 2 ** 55, 2 ** 56, 2 ** 62, 2 ** 63 - 1, -2 ** 31, -2 ** 55, -2 ** 63]
+EXTREME_INDICES = [2 ** 31 - 1, -2 ** 31, 2 ** 16]
+EXTREME_TEXTS = {'empty': '', 'long': 'x' * 300, 'huge': 'y' * 6000}
+EXTREME_UIDS = {'zero': '0', 'minus': '-1', 'beyond_int64': '99999999999999999999999', 'int64_max': str(2 ** 63 - 1), 'long_text': 'z' * 400,
+                'spaces': ' 1 ', 'float': '1e0'}
+KC = E.RevocationReasonCode.KEY_COMPROMISE
+
+
+def _extreme(name, fn):
+    RAW['x_' + name] = fn
+
+
+for _d in EXTREME_DATES:
+    _extreme('revoke_compromise_date_%d' % _d, lambda d=_d: kdrv.revoke('1', code=KC, date=d))
+    _extreme('revoke_deactivate_date_%d' % _d, lambda d=_d: kdrv.revoke('2', date=d))
+    _extreme('revoke_placeholder_date_%d' % _d, lambda d=_d: kdrv.revoke(None, code=KC, date=d))
+for _k, _t in EXTREME_TEXTS.items():
+    _extreme('revoke_message_' + _k, lambda t=_t: kdrv.revoke('2', message=t))
+    _extreme('revoke_compromise_message_' + _k, lambda t=_t: kdrv.revoke('1', code=KC, message=t, date=5))
+    _extreme('create_name_' + _k, lambda t=_t: kdrv.create(names=[t]))
+    _extreme('create_group_' + _k, lambda t=_t: kdrv.create(extra=[kdrv.attr(AT.OBJECT_GROUP, t, 0)]))
+    _extreme('create_policy_' + _k, lambda t=_t: kdrv.create(extra=[kdrv.attr(AT.OPERATION_POLICY_NAME, t)]))
+    _extreme('create_asi_' + _k, lambda t=_t: kdrv.create(extra=[kdrv.attr(AT.APPLICATION_SPECIFIC_INFORMATION, _asi(t or 'n', t), 0)]))
+    _extreme('register_name_' + _k, lambda t=_t: kdrv.register(OT.SECRET_DATA, names=[t]))
+    _extreme('register_opaque_value_' + _k, lambda t=_t: kdrv.register(OT.OPAQUE_DATA, secret=kdrv.secret_for(OT.OPAQUE_DATA, t.encode() or None)))
+    _extreme('ckp_name_' + _k, lambda t=_t: kdrv.create_key_pair(private=[kdrv.attr(AT.CRYPTOGRAPHIC_USAGE_MASK, [E.CryptographicUsageMask.SIGN]),
+                                                                          kdrv.attr(AT.NAME, kdrv.name_value(t), 0)]))
+    _extreme('modify_name_value_' + _k, lambda t=_t: kdrv.modify_attribute_v1('1', kdrv.attr(AT.NAME, kdrv.name_value(t), 0)))
+    _extreme('modify_group_value_' + _k, lambda t=_t: kdrv.modify_attribute_v1('7', kdrv.attr(AT.OBJECT_GROUP, t, 1)))
+    _extreme('derive_data_' + _k, lambda t=_t: kdrv.derive_key(['10'], method=E.DerivationMethod.HMAC, params=kdrv.cattrs.DerivationParameters(
+        cryptographic_parameters=_cp(hashing_algorithm=E.HashingAlgorithm.SHA_256), derivation_data=t.encode())))
+for _i in EXTREME_INDICES:
+    _extreme('modify_name_index_%d' % _i, lambda i=_i: kdrv.modify_attribute_v1('1', kdrv.attr(AT.NAME, kdrv.name_value('m'), i)))
+    _extreme('delete_name_index_%d' % _i, lambda i=_i: kdrv.delete_attribute_v1('9', 'Name', i))
+    _extreme('create_name_index_%d' % _i, lambda i=_i: kdrv.create(attrs=kdrv.sym_attrs(AES, 256, kdrv.ENC_DEC) + [kdrv.attr(AT.NAME, kdrv.name_value('ci'), i)]))
+for _k, _u in EXTREME_UIDS.items():
+    _extreme('activate_uid_' + _k, lambda u=_u: kdrv.activate(u))
+    _extreme('revoke_uid_' + _k, lambda u=_u: kdrv.revoke(u, code=KC, date=2 ** 40))
+    _extreme('destroy_uid_' + _k, lambda u=_u: kdrv.destroy(u))
+    _extreme('modify_uid_' + _k, lambda u=_u: kdrv.modify_attribute_v1(u, kdrv.attr(AT.NAME, kdrv.name_value('u'), 0)))
+    _extreme('delete_uid_' + _k, lambda u=_u: kdrv.delete_attribute_v1(u, 'Name', 0))
+EXTREME = sorted(n for n in RAW if n.startswith('x_'))
+
 # objects the raw items refer to, created after SETUP: 10 = active key that may derive, 11 = key with application specific
 # information, 12 = active key that may wrap
 RAW_SETUP = [('derive_base', lambda: kdrv.create(mask=(E.CryptographicUsageMask.DERIVE_KEY,))), ('activate_10', lambda: kdrv.activate('10')),
@@ -1281,7 +1325,7 @@ def gen_all(run, ctx):
     body = [I_create(names=[31]), I_activate(), I_destroy(1)]
     for ver in [(0, 9), (1, 5), (3, 0), (2, 1), (1, 0), (1, 3), (2, 0)]:
         run.history([req(body, ver=ver)], 'header:version')
-    for ts in [None, 0, -1, -59, -60, -61, -100000, 1, 2, 1000]:
+    for ts in [None, 0, -1, -59, -60, -61, -100000, 1, 2, 1000, 2 ** 63 - 1 - 1600000000, -2 ** 63 - 1600000000 + 2 ** 33, -1600000000, 2 ** 31]:
         run.history([req(body, ts=ts)], 'header:time stamp')
     for asyn in [None, False, True]:
         for opt in [None, 'STOP', 'CONTINUE', 'UNDO']:
@@ -1354,7 +1398,7 @@ def gen_all(run, ctx):
 def gen_sweep(run, ctx):
     quick = ctx.tier == 'quick'
     rng = ctx.subrng('c08-sweep')
-    names = [n for n in RAW if n not in dict(RAW_SETUP)]
+    names = [n for n in RAW if n not in dict(RAW_SETUP) and not n.startswith('x_')]
     M = menu()
     committing = [I_modify(1, 'AName', 0, 91), I_create(names=[92]), I_activate(1), I_delete(9, 'AName', 0), I_revoke(6, True)]
     for n in names:
@@ -1380,6 +1424,13 @@ def gen_sweep(run, ctx):
                                     I_get(), I_revoke(None, True), I_destroy()], ver=ver, opt=opt)], 'sweep:creator creator users')
         run.sweep([req([creators[first](), I_get(None, 'GET_ATTRIBUTES'), I_activate(), I_raw('encrypt_placeholder'), I_destroy(), I_get()], opt='CONTINUE')],
                   'sweep:creator users')
+    # optional request fields at extreme values: the item alone, and between a creation and items that commit / read
+    for n in EXTREME:
+        run.sweep([req([I_raw(n)])], 'sweep:extreme single')
+        if quick and rng.random() < 0.5:
+            continue
+        run.sweep([req([I_create(names=[115]), I_activate(), I_raw(n), I_modify(9, 'AName', 0, 116), I_get(1, 'GET_ATTRIBUTES'), I_ro('LOCATE')], opt='CONTINUE')],
+                  'sweep:extreme S S X S R R')
     # Register of every storable object class, then identifier-less items and a Locate
     registers = [I_register(2, names=[110]), I_register(7, names=[111]), I_register(8, names=[112]), I_raw('register_certificate'),
                  I_raw('register_public_key'), I_raw('register_private_key'), I_raw('register_split_key')]
@@ -1432,7 +1483,7 @@ def gen_wire(run, ctx):
              req([I_create(), I_create()], ids=False), req([I_create()], opt='UNDO'), req([I_modify(1, 'AName', 0, 83)]),
              req([I_delete(9, 'AName', None)], ver=(2, 0))]
     for r in fixed:
-        for mx in [None, 0, 1, 64, 150, 300, 1048576]:
+        for mx in [None, 0, 1, 64, 150, 300, 1048576, 2 ** 31 - 1, -1]:
             run.wire([], r, mx, 'wire:fixed')
     # large batches: answers of 4-20 KiB must reach the client whole - one result per executed item in the bytes it receives
     big = [(60, None, 'CONTINUE'), (75, 1048576, None), (90, 3000, 'CONTINUE')] + ([] if quick else [(120, None, None), (200, None, None), (64, 20000, 'STOP')])
